@@ -59,6 +59,10 @@ claimed = {
    text="Decides from source: wherever package telnet reads login lines through a bufio.Reader over a connection it then returns, the reader is stored in the returned value and the returned type's own Read reads through it (no byte buffered beyond the login can be lost, for every segmentation); every blocking read of a context-bound dial is dominated by a context-derived watcher/deadline that unblocks it and is not stopped before the last read; the timeout entry points turn the caller's timeout into the context of DialContext (so the dial returns by the deadline whatever the server does or does not send). Does not decide login success for all credentials, prompt recognition, or blocking writes.",
    technique="ownership/escape analysis of the buffered reader on SSA; dominance of a context watcher over blocking reads; data dependence of the context on the timeout",
    ref="DESIGN.md section 4, C15"),
+ "C17": dict(
+   text="Decides from source, for every schedule at once: for each goroutine started in package fbb, every variable shared with the spawner is examined field-granularly - accesses inside the goroutine (nested closures included) against accesses the spawner and its other closures can make after the go statement; a pair on the same storage with a write is reported unless the storage is a channel, sync/atomic value, Ticker/Timer; method calls count as writes unless read-only by table (and a read-only call still conflicts with a write on the other side) or, for module methods, by mod-ref. In each status reporter the Done report is issued only on the closed-channel path, which returns without another report; all other reports leave Done unset; the spawner closes that channel exactly once by a defer registered right after the go statement. Does not decide the numeric range of the reported counts, nor races inside the application's StatusUpdater/transport.",
+   technique="goroutine-sharing analysis on SSA (closure bindings, reachability after the go statement, field-granular read/write sets with a method effect table); dominance analysis of the final report",
+   ref="DESIGN.md section 4, C17"),
 }
 
 not_applicable = {
